@@ -95,7 +95,7 @@ def value(ty, text):
             if abs(v) >= 2 ** bits:
                 return None
             if text.startswith("-") and ty in negcheck_types():
-                return None                 # parse() refuses a minus sign before the tokens are stored (fix: 02ba52b)
+                return None                 # parse() refuses a minus sign before the tokens are stored (fix: 6ffb382)
             return v % 2 ** bits            # lexical_cast negates in the unsigned type
         if not (-2 ** (bits - 1) <= v < 2 ** (bits - 1)):
             return None
